@@ -344,10 +344,23 @@ func genC14(r *rand.Rand, tier string, env *Env) []Case {
 	}
 	for i := 0; i < n; i++ {
 		content, markers := genConfFile(r)
+		big := i%20 == 9
+		if big {
+			// 8 KiB … 60 KiB: several buffer-fulls of the scanner and the writer; the first version is a long spelling,
+			// so the rewritten text outgrows the text read so far
+			for len(content) < 8192+r.Intn(50000) {
+				more, m := genConfFile(r)
+				content += more
+				markers += m
+			}
+		}
 		args := [][]byte{[]byte(content)}
 		steps := 1 + r.Intn(3)
 		for s := 0; s < steps; s++ {
 			v, y := genVersion(r), fmt.Sprint(2000+r.Intn(200))
+			if big && s == 0 {
+				v = pick(r, []string{"4.5.0-rc1+build.20260929", "v4.5.0-rc1-12-g1a2b3c4d", "14.25.36-beta.11+exp.sha.5114f85", "4.5.0"})
+			}
 			if s > 0 && chance(r, 0.3) {
 				// the same version again with another year, or another version in the same year
 				if chance(r, 0.5) {
@@ -361,12 +374,14 @@ func genC14(r *rand.Rand, tier string, env *Env) []Case {
 		kind := "file-seq"
 		if markers == 0 {
 			kind = "trivial"
+		} else if big {
+			kind = "big-file-seq"
 		}
 		c := Case{Kind: kind,
 			Ops:     []Op{{"copyright.updateRules", [][]byte{args[1], args[2], args[0]}}},
 			Oracles: []Op{{"c14.seq", args}}}
-		if i < nCli {
-			c.Kind = "file-seq+cli"
+		if i < nCli || (big && i < 4*nCli) {
+			c.Kind = kind + "+cli"
 			c.Oracles = append(c.Oracles, Op{"c14.cli", args})
 		}
 		cases = append(cases, c)
